@@ -1,12 +1,422 @@
-/-! Model for property C08 (core-only: no Mathlib import, so the driver links). -/
+import OnetVerif.Model.Util
+/-! Model for property C08: the server-to-server TLS handshake of `network/tls.go` and what the
+router does with an authenticated connection (`network/router.go`).  Symbolic (Dolev–Yao):
+keys, nonces and signatures are terms, `schnorr.Verify` succeeds iff the term matches.  What is
+*not* in the model and is trusted: Schnorr unforgeability, X.509 parsing and chain verification,
+the TLS record layer (crypto/tls proves that the peer holds the private key of the certificate's
+TLS key), randomness of nonces.  Core-only. -/
 namespace C08
 
+/-- an onet (kyber) key pair, identified with its public key and with its holder -/
+abbrev Key := Nat
+/-- an ephemeral ECDSA key pair made at boot for TLS (`newCertMaker`, tls.go:84) -/
+abbrev TlsKey := Nat
+
+/-- what can travel in `ServerName` / `AcceptableCAs[0]` (tls.go:266-284, 478-485) -/
+inductive Nonce
+  | hon (i : Nat)   -- the i-th value drawn by an honest `mkNonce` (tls.go:507-516)
+  | adv (i : Nat)   -- any other string of `nonceSize` bytes
+  | badSize         -- a string whose length is not `nonceSize`, or none at all
+  deriving DecidableEq, Repr
+
+/-- a certificate common name / the opaque part of an `onet-pubkey` URI -/
+inductive Name
+  | new (k : Key)   -- `pubToCN k` = "Z" ++ hex(marshal k)           (tls.go:435-439)
+  | old (k : Key)   -- `k.String()`, the naming used before dedis/onet#485
+  | junk (i : Nat)  -- a string that names no key
+  deriving DecidableEq, Repr
+
+/-- the only thing the handshake needs to know about a key suite -/
+structure Suite where
+  /-- `encoding.StringHexToPoint(suite, k.String())` gives `k` back (Ed25519: yes, bn256: no) -/
+  oldParses : Bool
+  deriving DecidableEq, Repr
+
+/-- `pubToCN` (tls.go:435-439) -/
+def pubToCN (k : Key) : Name := .new k
+
+/-- `pubFromCN` (tls.go:403-433) -/
+def pubFromCN (s : Suite) : Name → Option Key
+  | .new k => some k
+  | .old k => if s.oldParses then some k else none
+  | .junk _ => none
+
+/-- content of the DEDIS extension: `schnorr.Sign(priv k, nonce ‖ asn1(cn))` or anything else -/
+inductive Sig
+  | sig (k : Key) (n : Nonce) (cn : Name)
+  | junk (i : Nat)
+  deriving DecidableEq, Repr
+
+/-- `schnorr.Verify(suite, pub, nonce ‖ asn1(cn), sig) == nil` -/
+def schnorrVerify (pub : Key) (n : Nonce) (cn : Name) (s : Sig) : Bool := s == .sig pub n cn
+
+/-- a URI of the certificate: scheme `onet-pubkey` or not, service name (0 = empty), name -/
+structure Uri where
+  onet    : Bool
+  service : Nat
+  name    : Name
+  deriving DecidableEq, Repr
+
+inductive Validity | ok | expired | notYet
+  deriving DecidableEq, Repr
+
+/-- one entry of `rawCerts` as far as `makeVerifier` looks at it -/
+structure Cert where
+  parses   : Bool         -- `x509.ParseCertificates` succeeds
+  count    : Nat          -- number of certificates found in that one DER blob
+  tlsKey   : TlsKey       -- the certified (TLS) public key
+  signedBy : TlsKey       -- the key whose signature is on the certificate
+  validity : Validity     -- NotBefore ≤ now ≤ NotAfter
+  uris     : List Uri
+  cn       : Name         -- Subject.CommonName
+  ext      : Option Sig   -- value of the extension `oidDedisSig`, if present
+  deriving DecidableEq, Repr
+
+/-- the individual tests of `makeVerifier`, in source order -/
+inductive Check
+  | oneRaw        -- tls.go:321  `len(rawCerts) != 1`
+  | parse         -- tls.go:324  `x509.ParseCertificates`
+  | oneCert       -- tls.go:328  `len(certs) != 1`
+  | x509          -- tls.go:334-342 `cert.Verify` against itself: valid now
+  | expected      -- tls.go:347-367 URIs (or CN string) name the key we dialled
+  | sigPresent    -- tls.go:370-379 extension exists
+  | cnDecodes     -- tls.go:382-386 `pubFromCN`
+  | cnIsExpected  -- (fix) the key named by the CN is the key we dialled
+  | signature     -- tls.go:388-397 `schnorr.Verify` over our nonce ‖ CN
+  deriving DecidableEq, Repr
+
+/-- `cert.Verify` with the certificate itself as the only root (tls.go:334-342).  crypto/x509
+accepts a certificate that is *in* the root pool without looking at its signature
+(`if opts.Roots.contains(c)`, x509/verify.go), so what this test really tests is the validity
+period; `signedBy` is not consulted.  Harmless: crypto/tls has the peer prove that it holds
+`tlsKey`, and anybody can self-sign. -/
+def x509ok (c : Cert) : Bool := c.validity == .ok
+
+/-- the test on `them` (dial role only): with URIs, one of them must be
+`onet-pubkey::<pubToCN them>`; without, the CN string must be `pubToCN them` -/
+def expectedOk (them : Key) (c : Cert) : Bool :=
+  if c.uris.isEmpty then c.cn == pubToCN them
+  else c.uris.any fun u => u.onet && u.service == 0 && u.name == pubToCN them
+
+/-- `makeVerifier`'s closure (tls.go:311-400), with every test individually switchable
+(`en c = false` skips test `c`); `none` is Go's `nil` error, `some c` names the rejecting test.
+`them = none` is the accepting role (tls.go:277), `some k` the dialling role (tls.go:478). -/
+def verifyPeerG (en : Check → Bool) (s : Suite) (them : Option Key) (nonce : Nonce)
+    (raw : List Cert) : Option Check :=
+  match raw with
+  | [] => some .oneRaw
+  | c :: rest =>
+    if en .oneRaw && !rest.isEmpty then some .oneRaw
+    else if !c.parses then some .parse
+    else if c.count = 0 then some .parse
+    else if en .oneCert && c.count != 1 then some .oneCert
+    else if en .x509 && !x509ok c then some .x509
+    else if en .expected && (match them with | some t => !expectedOk t c | none => false) then
+      some .expected
+    else match c.ext with
+      | none => some .sigPresent
+      | some sg =>
+        match pubFromCN s c.cn with
+        | none => some .cnDecodes
+        | some pub =>
+          if en .cnIsExpected && (match them with | some t => pub != t | none => false) then
+            some .cnIsExpected
+          else if en .signature && !schnorrVerify pub nonce c.cn sg then some .signature
+          else none
+
+/-- the verifier as it is in the source: every test on -/
+def verifyPeer (s : Suite) (them : Option Key) (nonce : Nonce) (raw : List Cert) : Option Check :=
+  verifyPeerG (fun _ => true) s them nonce raw
+
+/-- the key the router reads from `PeerCertificates[0].Subject.CommonName` (router.go:608) -/
+def peerKey (s : Suite) (raw : List Cert) : Option Key :=
+  match raw with
+  | [] => none
+  | c :: _ => pubFromCN s c.cn
+
+/-- how an honest node names its key: current code (new style, with URI) or a node from before
+dedis/onet#485 (old style, no URI) -/
+inductive Style | new | old
+  deriving DecidableEq, Repr
+
+def Style.name : Style → Key → Name
+  | .new, k => .new k
+  | .old, k => .old k
+
+/-- `certMaker.get` (tls.go:125-206): the certificate an honest holder of `k`, whose TLS key is
+`t`, makes for the nonce it was given; `none` when the nonce has the wrong size -/
+def certFor (st : Style) (k : Key) (t : TlsKey) (n : Nonce) : Option Cert :=
+  if n = .badSize then none
+  else some { parses := true, count := 1, tlsKey := t, signedBy := t, validity := .ok,
+              uris := (match st with | .new => [⟨true, 0, pubToCN k⟩] | .old => []),
+              cn := st.name k, ext := some (.sig k n (st.name k)) }
+
+/-! ### the router's side (router.go) -/
+
+/-- the self-declared identity sent as first message; only `pub` matters here, the other fields
+(address, deprecated id field, description …) are summarised in `rest` -/
+structure Identity where
+  pub  : Key
+  rest : Nat
+  deriving DecidableEq, Repr
+
+/-- what arrives first on an accepted connection -/
+inductive First
+  | identity (id : Identity)
+  | other               -- a message of any other type
+  | error               -- `Receive` failed (includes a failed TLS handshake)
+  deriving DecidableEq, Repr
+
+inductive IdErr | recv | wrongType | noPeerCert | cnDecodes | mismatch
+  deriving DecidableEq, Repr
+
+/-- `receiveServerIdentity` on a TLS connection (router.go:586-626) -/
+def receiveServerIdentity (s : Suite) (peerCerts : List Cert) (m : First) : Except IdErr Identity :=
+  match m with
+  | .error => .error .recv
+  | .other => .error .wrongType
+  | .identity dst =>
+    match peerCerts with
+    | [] => .error .noPeerCert
+    | c :: _ =>
+      match pubFromCN s c.cn with
+      | none => .error .cnDecodes
+      | some pub => if pub = dst.pub then .ok dst else .error .mismatch
+
+/-- an envelope handed to the dispatcher: the identity attached by `handleConn`
+(`packet.ServerIdentity = remote`, router.go:474) and the payload -/
+abbrev Envelope := Identity × Nat
+
+/-- the accepting role, end to end (tls.go:268-284, router.go:208-245, 415-484): the lazy TLS
+handshake runs inside the first `Receive`; then the identity test, the valid-peer filter (C17),
+registration (refused when the router is closed, C10); then every message is dispatched with the
+declared identity attached -/
+def acceptConn (s : Suite) (nonce : Nonce) (validPeer : Identity → Bool) (closed : Bool)
+    (raw : List Cert) (first : First) (msgs : List Nat) : List Envelope :=
+  match verifyPeer s none nonce raw with
+  | some _ => []
+  | none =>
+    match receiveServerIdentity s raw first with
+    | .error _ => []
+    | .ok dst => if validPeer dst && !closed then msgs.map fun m => (dst, m) else []
+
+/-- the dialling role, end to end (tls.go:464-503, router.go:359-381): messages read from the
+new connection are dispatched with the identity that was dialled attached -/
+def dialConn (s : Suite) (nonce : Nonce) (them : Identity) (closed : Bool)
+    (raw : List Cert) (msgs : List Nat) : List Envelope :=
+  match verifyPeer s (some them.pub) nonce raw with
+  | some _ => []
+  | none => if closed then [] else msgs.map fun m => (them, m)
+
+/-! ### the world: honest nodes, an adversary who owns the network -/
+
+/-- who holds what -/
+structure Setting where
+  suite  : Suite
+  /-- onet keys whose private part the adversary holds -/
+  adv    : Key → Bool
+  /-- TLS keys whose private part the adversary holds -/
+  advTls : TlsKey → Bool
+  /-- the TLS key the honest holder of an onet key made at boot (`newCertMaker`) -/
+  tlsOf  : Key → TlsKey
+
+/-- one `makeVerifier` call of an honest node: handshake number `i` owns the nonce `hon i` -/
+structure Hs where
+  them : Option Key
+  deriving DecidableEq, Repr
+
+structure World where
+  /-- honest handshakes opened so far; the next nonce drawn is `hon hs.length` -/
+  hs  : List Hs := []
+  /-- everything honest key holders have signed in `certMaker.get` -/
+  log : List (Key × Nonce × Name) := []
+  /-- handshakes that succeeded, with the certificate that was accepted -/
+  acc : List (Nat × Cert) := []
+  deriving DecidableEq, Repr
+
+inductive Ev
+  /-- an honest node starts a handshake (dial: `some intended`, accept: `none`) -/
+  | mkVerifier (them : Option Key)
+  /-- the honest holder of `k` is handed nonce `n` by whoever it is talking to (the adversary,
+  if it likes) and makes its certificate; the nonce is any string the requester knows -/
+  | certFor (k : Key) (st : Style) (n : Nonce)
+  /-- the adversary completes the TLS handshake with honest handshake `i` presenting `raw`;
+  crypto/tls makes sure it holds the private key of the first certificate's TLS key -/
+  | present (i : Nat) (raw : List Cert)
+  /-- the honest holder of `k` itself is the peer of honest handshake `i` -/
+  | honest (i : Nat) (k : Key) (st : Style)
+  deriving Repr
+
+/-- what the adversary can put into the extension: garbage, signatures under keys it holds,
+and signatures honest nodes made (they travel in clear or are handed out on request) -/
+def presentable (adv : Key → Bool) (log : List (Key × Nonce × Name)) : Sig → Bool
+  | .junk _ => true
+  | .sig k n cn => adv k || log.contains (k, n, cn)
+
+/-- a nonce the requester of a certificate can know: its own strings and honest nonces that
+have already been drawn; not honest nonces of the future (`mkNonce` is random) -/
+def knownNonce (w : World) : Nonce → Bool
+  | .hon i => i < w.hs.length
+  | _ => true
+
+/-- handshake `i` looks at `raw` -/
+def verifyAt (S : Setting) (w : World) (i : Nat) (raw : List Cert) : Option World :=
+  match w.hs[i]? with
+  | none => none
+  | some h =>
+    match raw, verifyPeer S.suite h.them (.hon i) raw with
+    | c :: _, none => some { w with acc := (i, c) :: w.acc }
+    | _, _ => some w
+
+/-- the honest holder of `k` signs in `certMaker.get` -/
+def signFor (S : Setting) (w : World) (k : Key) (st : Style) (n : Nonce) : Option World :=
+  if S.adv k || !knownNonce w n then none
+  else if n = .badSize then some w       -- "nonce is the wrong size": nothing is signed
+  else some { w with log := (k, n, st.name k) :: w.log }
+
+/-- what the adversary can complete a TLS handshake with: it holds the private key of the first
+certificate's TLS key, and every proof in the chain is presentable -/
+def canPresent (S : Setting) (w : World) (raw : List Cert) : Bool :=
+  (match raw with | c :: _ => S.advTls c.tlsKey | [] => true) &&
+  raw.all (fun c => match c.ext with | none => true | some sg => presentable S.adv w.log sg)
+
+/-- one event; `none` = the event is not possible -/
+def step (S : Setting) (w : World) : Ev → Option World
+  | .mkVerifier them => some { w with hs := w.hs ++ [⟨them⟩] }
+  | .certFor k st n => signFor S w k st n
+  | .present i raw => if canPresent S w raw then verifyAt S w i raw else none
+  | .honest i k st =>
+    match signFor S w k st (.hon i), certFor st k (S.tlsOf k) (.hon i) with
+    | some w', some c => verifyAt S w' i [c]
+    | _, _ => none
+
+def run (S : Setting) (w : World) : List Ev → Option World
+  | [] => some w
+  | e :: es => match step S w e with
+    | none => none
+    | some w' => run S w' es
+
+/-! ### line-protocol front end -/
 namespace Drv
-/-- line-protocol driver state for C08 -/
+
 abbrev State := Unit
 def init : State := ()
-/-- one line in (tokens after the property prefix), new state and one line out -/
-def step (s : State) (_toks : List String) : State × String := (s, "bad-op")
+
+/-- `key=value` tokens -/
+def kv (toks : List String) : Option (List (String × String)) :=
+  toks.mapM fun t => match t.splitOn "=" with
+    | [k, v] => some (k, v)
+    | _ => none
+
+def get (m : List (String × String)) (k : String) : Option String := (m.find? (·.1 = k)).map (·.2)
+
+/-- key labels: `h` the honest node under test, `v` another honest server, `a` the deviating
+peer's own key, `o` one more -/
+def keyOf : String → Option Key
+  | "h" => some 0 | "v" => some 1 | "a" => some 2 | "o" => some 3 | _ => none
+
+def labelOf (k : Key) : String :=
+  match k with | 0 => "h" | 1 => "v" | 2 => "a" | 3 => "o" | _ => "?"
+
+def nameOf (t : String) : Option Name :=
+  match t.splitOn ":" with
+  | ["new", k] => (keyOf k).map .new
+  | ["old", k] => (keyOf k).map .old
+  | ["junk"] => some (.junk 0)
+  | ["empty"] => some (.junk 1)
+  | _ => none
+
+/-- `cur` the nonce of this handshake, `stale` the one of an earlier handshake of the same honest
+node, `foreign` a string chosen by the peer -/
+def nonceOf : String → Option Nonce
+  | "cur" => some (.hon 1) | "stale" => some (.hon 0) | "foreign" => some (.adv 0) | _ => none
+
+def sigOf (t : String) : Option (Option Sig) :=
+  if t = "none" then some none
+  else if t = "junk" then some (some (.junk 0))
+  else if t = "flip" then some (some (.junk 1))
+  else match t.splitOn "/" with
+    | [k, n, c] => do
+      let k ← keyOf k
+      let n ← nonceOf n
+      let c ← nameOf c
+      pure (some (.sig k n c))
+    | _ => none
+
+def urisOf (t : String) : Option (List Uri) :=
+  if t = "none" then some []
+  else (t.splitOn ",").mapM fun u =>
+    match u.splitOn "@" with
+    | [n] => (nameOf n).map fun n => ⟨true, 0, n⟩
+    | ["svc", n] => (nameOf n).map fun n => ⟨true, 1, n⟩        -- a service key URI
+    | ["http", n] => (nameOf n).map fun n => ⟨false, 0, n⟩       -- another scheme
+    | _ => none
+
+def suiteOf : String → Option Suite
+  | "ed" => some ⟨true⟩ | "g1" => some ⟨false⟩ | "g2" => some ⟨false⟩ | _ => none
+
+/-- `hs role=… suite=… tlsv=… op=… them=… ncerts=… der=… signedby=… time=… uris=… cn=… sig=…
+nonce=… id=… via=…`: one handshake of a deviating peer with the honest node, in either role.  The
+answer is `hs=<ok|fail> disp=<label of the key attached to the dispatched message|->`. -/
+def step (s : State) (toks : List String) : State × String :=
+  match toks with
+  | "hs" :: rest =>
+    let r : Option String := do
+      let m ← kv rest
+      if m.length ≠ 15 then none
+      let role ← get m "role"
+      let suite ← (← get m "suite") |> suiteOf
+      let tlsv ← get m "tlsv"
+      if tlsv ≠ "12" ∧ tlsv ≠ "13" then none
+      let op ← (← get m "op") |> keyOf
+      let ncerts ← (← get m "ncerts").toNat?
+      let der ← get m "der"
+      let signedby ← get m "signedby"
+      let time ← get m "time"
+      let uris ← (← get m "uris") |> urisOf
+      let cn ← (← get m "cn") |> nameOf
+      let sg ← (← get m "sig") |> sigOf
+      let nonce ← get m "nonce"
+      let idt ← get m "id"
+      let themT ← get m "them"
+      let via ← get m "via"
+      if via ≠ "key" ∧ via ≠ "relay" then none
+      let (parses, count) ← (match der with
+        | "ok" => some (true, 1) | "bad" => some (false, 0) | "two" => some (true, 2) | _ => none)
+      let tls : TlsKey := 10 + op
+      let signer ← (match signedby with | "self" => some tls | "other" => some 99 | _ => none)
+      let validity ← (match time with
+        | "ok" => some Validity.ok | "expired" => some .expired | "future" => some .notYet | _ => none)
+      -- nonce transport towards the deviating peer is irrelevant to the verifier; the peer's
+      -- own nonce towards the honest node decides whether the honest node can answer at all
+      let honestCanAnswer ← (match nonce with
+        | "ok" => some true | "short" => some false | "none" => some false | _ => none)
+      let c : Cert := { parses := parses, count := count, tlsKey := tls, signedBy := signer,
+                        validity := validity, uris := uris, cn := cn, ext := sg }
+      if ncerts > 3 then none
+      let raw := List.replicate ncerts c
+      let honestAnswers := (certFor .new 0 10 (if honestCanAnswer then .adv 1 else .badSize)).isSome
+      match role with
+      | "dial" =>
+        if idt ≠ "-" then none
+        if themT = "h" then none     -- the router never dials its own key (router.go:300)
+        let them ← keyOf themT
+        let out := dialConn suite (.hon 1) ⟨them, 0⟩ false raw [7]
+        let ok := honestAnswers && (verifyPeer suite (some them) (.hon 1) raw).isNone
+        pure (if ok then s!"hs=ok disp={match out with | (i, _) :: _ => labelOf i.pub | [] => "-"}"
+              else "hs=fail disp=-")
+      | "accept" =>
+        if themT ≠ "-" then none
+        let first ← (if idt = "none" then some First.other
+                     else (keyOf idt).map fun k => First.identity ⟨k, 0⟩)
+        let ok := honestAnswers && (verifyPeer suite none (.hon 1) raw).isNone
+        let out := acceptConn suite (.hon 1) (fun _ => true) false raw first [7]
+        pure (if ok then s!"hs=ok disp={match out with | (i, _) :: _ => labelOf i.pub | [] => "-"}"
+              else "hs=fail disp=-")
+      | _ => none
+    (s, r.getD "bad-op")
+  | _ => (s, "bad-op")
+
 end Drv
 
 end C08
